@@ -69,8 +69,12 @@ def _update_optimal_result(
     results: tuple[Results, ...],
     transformed_results: tuple[Results, ...],
     constraint_tolerance: float | None,
-) -> FunctionResults | None:
-    return_result: FunctionResults | None = None
+) -> tuple[FunctionResults, FunctionResults] | None:
+    # The optimal result is tracked in the domain of the optimizer, i.e. the
+    # `optimal_result` argument and the comparisons use transformed results.
+    # The return value contains both the new optimal result, and its
+    # transformed version.
+    return_result: tuple[FunctionResults, FunctionResults] | None = None
     for item, transformed_item in zip(results, transformed_results, strict=False):
         if (
             isinstance(transformed_item, FunctionResults)
@@ -78,8 +82,10 @@ def _update_optimal_result(
             and not _violates_constraint(transformed_item, constraint_tolerance)
         ):
             assert isinstance(item, FunctionResults)
-            new_optimal_result = _get_new_optimal_result(optimal_result, item)
+            new_optimal_result = _get_new_optimal_result(
+                optimal_result, transformed_item
+            )
             if new_optimal_result is not None:
                 optimal_result = new_optimal_result
-                return_result = new_optimal_result
+                return_result = (item, new_optimal_result)
     return return_result
